@@ -23,6 +23,14 @@ def shards(mode, bin_, n, **kw):
 
 
 PROPS = {
+    "C04": {
+        "runs": [{"mode": "native-dev", "bin": "c04"}]
+        + shards("miri", "c04", 16)
+        + [dict(r, tiers=["thorough"]) for r in shards("miri-tb", "c04", 16)]
+        + [{"mode": "asan-dev", "bin": "c04"}],
+        "expect_monitors": ["casts"],
+        "assumptions": ASSUME_COMMON + ["declared field orders typed by hand from the type documentation (harness/src/bin/c04.rs)", "Vec::with_capacity returns the requested capacity (actual capacity is read back and used)"],
+    },
     "C05": {
         "runs": [native("c05")] + shards("miri", "c05", 8) + [{"mode": "asan", "bin": "c05"}],
         "expect_monitors": ["lut_encode_f32_sweep", "lut_decode_codes", "lut_encode_f64", "float_curves", "rgb_luma_wiring", "lut_memory_safety"],
